@@ -19,6 +19,8 @@
 (*   [e:"junk", text]                a line that is not a message          *)
 (*   [e:"eof"]                       end of input (also: truncation)       *)
 (*   [e:"cmd", c, ...]               a user command                        *)
+(*   [e:"open", tag, role], [e:"close", tag]   the connection-id interface *)
+(*        used directly (GDB mode: libwayland connections come and go)     *)
 (***************************************************************************)
 EXTENDS ObjectTable, Matcher, LetterId
 
@@ -125,6 +127,24 @@ MsgStep(S, ev) ==
                      ELSE S3
          IN [S |-> S4, out |-> outNew \o show \o stop, oc |-> "ok"]
 
+\* The connection-id interface used directly (GDB mode, property C04's
+\* open/message/close sequences): open closes a live connection with the same
+\* id first and always yields a new connection with the next name and an empty
+\* table; close of an unknown or closed id is a no-op.
+CloseTag(S, tag) ==
+  LET k == OpenIdx(S, tag) IN
+  IF k = 0 THEN [S |-> S, out |-> <<>>]
+  ELSE [S |-> [S EXCEPT !.conns[k].open = FALSE], out |-> <<ItClosed(S.conns[k])>>]
+
+OpenStep(S, ev) ==
+  LET c1 == CloseTag(S, ev.tag)
+      nc == NewConn(ev.tag, Len(S.conns), ev.role)
+  IN [S |-> [c1.S EXCEPT !.conns = Append(@, nc), !.known = @ \cup {ev.tag}],
+      out |-> c1.out \o <<ItNew(nc)>>, oc |-> "open"]
+
+CloseStep(S, ev) ==
+  LET c1 == CloseTag(S, ev.tag) IN [S |-> c1.S, out |-> c1.out, oc |-> "close"]
+
 JunkStep(S, ev) ==
   [S |-> S, out |-> IF S.show THEN <<ItJunk(ev.text)>> ELSE <<>>, oc |-> "junk"]
 
@@ -219,6 +239,8 @@ Step(S, ev) ==
     [] ev.e = "junk" -> JunkStep(S, ev)
     [] ev.e = "eof"  -> EofStep(S, ev)
     [] ev.e = "cmd"  -> CmdStep(S, ev)
+    [] ev.e = "open" -> OpenStep(S, ev)
+    [] ev.e = "close" -> CloseStep(S, ev)
 
 -----------------------------------------------------------------------------
 \* State properties (checked on every state of every model and every trace).
@@ -237,7 +259,7 @@ StateOk(S) == TablesOk(S) /\ NamesInOrder(S) /\ OneOpenPerTag(S) /\ RecordedAll(
 \* Step properties between S and the successor T for event ev.
 Isolation(S, T, ev) ==
   \A k \in 1..Len(S.conns) :
-     (ev.e # "msg" \/ S.conns[k].tag # (IF ev.tag = "" THEN "PARSED" ELSE ev.tag))
+     (ev.e # "msg" \/ S.conns[k].tag # (IF ev.tag = "" THEN "PARSED" ELSE ev.tag) \/ ~S.conns[k].open)
         => (T.conns[k].db = S.conns[k].db /\ T.conns[k].n = S.conns[k].n /\ T.conns[k].ord = S.conns[k].ord
             /\ T.conns[k].role = S.conns[k].role)
 HistoryAppendOnly(S, T) ==
